@@ -128,6 +128,15 @@ def rule_enter_guards(ctx: Ctx, which: str, clause: str):
                 ctx.info(clause, f"GD.{which}", f"{sc.name}.enter success at line {m.path.lineno} installs no activity: not an entry", sc.enter, m.path.end,
                          why="result contains no apply_new_vehicle_state / modify_vehicle call")
                 continue
+            if which == "START" and loc is not None and loc[0] in ("route", "servicing"):
+                # C06's share of the location guard: a travelling activity is entered only with a route that starts where the vehicle is
+                n += 1
+                ok = has_route(atoms, "SELF.route", f"{VEH}.position", None)
+                ctx.check(ok, clause, "GD.START", f"{here}: dominated by route_cooresponds_with_entities(self.route, vehicle.position, ...)", sc.enter, m.path.end,
+                          why_ok="atom present with the accepting polarity in the path condition",
+                          why_bad=f"path [{m.path.cond_text()[:400]}] installs a travelling activity whose route was not checked to start at the vehicle: move() drives the route from its own "
+                                  f"first link, so the vehicle jumps there",
+                          construct=f"{sc.name}.enter:missing-START", witness={"path": m.path.cond_text()})
             if which == "LOC" and loc is not None:
                 n += 1
                 if loc[0] == "cell":
